@@ -4,6 +4,7 @@
 //	enc <cells|ss|render> <caps> <cell>*      impl = token list of what the real producer wrote
 //	dec <cells|ss|emu> <style> <tok>*         impl = cells the real parser returned (emu: final pen)
 //	rt  <cells|ss> <cell>*                    impl = cells after the real encode → parse round trip
+//	rtq <cells|ss> <cell>*                    the same with VAXIS_FORCE_LEGACY_SGR applied
 //
 // cell = hex(grapheme):fg,bg,ul,ulstyle,attr   tok = S<params text> | T<hex(grapheme)>
 // caps bit 0 = rgb, bit 1 = styledUnderlines, bit 2 = VAXIS_FORCE_LEGACY_SGR applied.
@@ -335,7 +336,11 @@ func (e *env) doDec(which string, dflt vaxis.Style, toks []string) (res string) 
 	return res
 }
 
-func (e *env) doRt(which string, cells []vaxis.Cell) (res string) {
+func (e *env) doRt(which string, legacy bool, cells []vaxis.Cell) (res string) {
+	if err := e.setLegacy(legacy); err != nil {
+		return "error:" + err.Error()
+	}
+	defer e.setLegacy(false)
 	panicked, _ := hx.Guard(func() {
 		switch which {
 		case "cells":
@@ -380,12 +385,12 @@ func (e *env) exec(op []string) (string, bool) {
 			return "", false
 		}
 		return e.doDec(op[1], st, op[3:]), true
-	case "rt":
+	case "rt", "rtq":
 		cells, ok := parseCells(op[2:])
 		if !ok {
 			return "", false
 		}
-		return e.doRt(op[1], cells), true
+		return e.doRt(op[1], op[0] == "rtq", cells), true
 	}
 	return "", false
 }
@@ -468,7 +473,7 @@ func (e *env) pair(which string, caps int, p, n vaxis.Style) {
 var producers = []struct {
 	which string
 	caps  int
-}{{"cells", 3}, {"ss", 3}, {"render", 3}, {"render", 2}, {"render", 1}, {"render", 0}, {"cells", 7}, {"render", 7}, {"render", 4}}
+}{{"cells", 3}, {"ss", 3}, {"render", 3}, {"render", 2}, {"render", 1}, {"render", 0}, {"cells", 7}, {"render", 7}, {"render", 4}, {"ss", 7}}
 
 func (e *env) genEnc(rng *gen.Rng) {
 	r := e.r
@@ -593,8 +598,21 @@ func (e *env) genRt(rng *gen.Rng) {
 			}
 			cs = append(cs, cellStr(withG(gen.Pick(rng, graphemes), st)))
 		}
-		e.emit(strings.TrimSpace(fmt.Sprintf("rt %s %s", which, strings.Join(cs, " "))))
-		r.Count("rt:" + which)
+		kind := "rt"
+		if i%4 >= 2 { // the same round trips with VAXIS_FORCE_LEGACY_SGR applied
+			kind = "rtq"
+		}
+		e.emit(strings.TrimSpace(fmt.Sprintf("%s %s %s", kind, which, strings.Join(cs, " "))))
+		r.Count(kind + ":" + which)
+	}
+	// legacy quirk applied: each codec must still read back its own extended colours (16-255 and RGB, fg and bg)
+	for _, which := range []string{"cells", "ss"} {
+		for i := 0; i < 256; i += 3 {
+			a := vaxis.Style{Foreground: vaxis.IndexColor(uint8(16 + i%240)), Background: vaxis.RGBColor(uint8(i), uint8(255-i), uint8(i*7))}
+			b := vaxis.Style{Foreground: vaxis.RGBColor(uint8(i*5), uint8(i), uint8(3)), Background: vaxis.IndexColor(uint8(16 + (i*11)%240))}
+			e.emit(fmt.Sprintf("rtq %s %s %s %s", which, cellStr(withG("a", a)), cellStr(withG("b", b)), cellStr(withG("c", vaxis.Style{}))))
+			r.Count("rtq-extcolour:" + which)
+		}
 	}
 	// single transitions of one field, both directions, for both codecs
 	vals := []vaxis.Style{{}, {Foreground: vaxis.IndexColor(1)}, {Foreground: vaxis.IndexColor(9)}, {Foreground: vaxis.IndexColor(200)},
